@@ -329,7 +329,44 @@ def expected_result(op, v):
     return (v, v)
 
 
+def carry_chain_operand(rng, m):
+    """For an odd modulus m of nw >= 2 64-bit words: an operand v whose Montgomery form V = v * 2^(64 nw) mod m has a
+    double-width square with all-ones words in the upper half - where the Montgomery reduction carries into the accumulator.
+    None when no such operand was found."""
+    nw = (m.bit_length() + 63) // 64
+    top = ((m * m).bit_length() - 1) // 64
+    if nw < 2 or top <= nw or m % 2 == 0:
+        return None
+    rinv = pow(1 << (64 * nw), -1, m)
+    for _ in range(8):
+        T = rng.randrange(m * m)
+        for w in ([w for w in range(nw, top) if rng.random() < 0.5] or [rng.randrange(nw, top)]):
+            T |= ((1 << 64) - 1) << (64 * w)
+        V = math.isqrt(T)
+        if 1 < V < m:
+            return V * rinv % m
+    return None
+
+
 def gen_args(rng, kinds):
+    args = _gen_args(rng, kinds)
+    # modular operations on an odd modulus: now and then the operand(s) stress the carry chain of a word-wise Montgomery
+    # multiplication (see carry_chain_operand)
+    if len(kinds) >= 2 and kinds[-1] in "mo" and kinds[0] in "in" and isinstance(args[-1], int) and args[-1] > (1 << 64) \
+            and args[-1] % 2 and rng.random() < 0.12:
+        v = carry_chain_operand(rng, args[-1])
+        if v is not None:
+            args[0] = v
+            if kinds[1] in "in":
+                args[1] = v
+            CARRY_CHAIN["n"] += 1
+    return args
+
+
+CARRY_CHAIN = {"n": 0}
+
+
+def _gen_args(rng, kinds):
     args = []
     for k in kinds:
         if k == "i":
